@@ -209,9 +209,14 @@ impl AutosarModel {
             // handles to the replaced (empty) root element must not be usable as if they were still the root
             old_root_element.set_parent(ElementOrModel::None);
         } else {
-            let result = self.merge_file_data(&root_element, arxml_file.downgrade());
+            let mut pinned = Vec::new();
+            let result = self.merge_file_data(&root_element, arxml_file.downgrade(), &mut pinned);
             if let Err(error) = result {
                 let _ = self.root_element().remove_from_file(&arxml_file);
+                // elements that were given the file set of their parent during the merge inherit it again
+                for element in pinned {
+                    element.0.write().file_membership.clear();
+                }
                 return Err(error);
             }
         }
@@ -257,11 +262,16 @@ impl AutosarModel {
     // These are the points where the overall elements can be split into different arxml files, or, while loading, merged.
     // Unfortunately, the standard says nothing about how this should be done, so the algorithm here is just a guess.
     // In the wild, only merging at the AR-PACKAGES and at the ELEMENTS level exists. Everything else seems like a bad idea anyway.
-    fn merge_file_data(&self, new_root: &Element, new_file: WeakArxmlFile) -> Result<(), AutosarDataError> {
+    fn merge_file_data(
+        &self,
+        new_root: &Element,
+        new_file: WeakArxmlFile,
+        pinned: &mut Vec<Element>,
+    ) -> Result<(), AutosarDataError> {
         let root = self.root_element();
         let files: HashSet<WeakArxmlFile> = self.files().map(|f| f.downgrade()).collect();
 
-        Self::merge_element(&root, &files, new_root, &new_file)?;
+        Self::merge_element(&root, &files, new_root, &new_file, pinned)?;
         self.root_element().0.write().file_membership.insert(new_file);
 
         Ok(())
@@ -272,6 +282,7 @@ impl AutosarModel {
         files: &HashSet<WeakArxmlFile>,
         parent_b: &Element,
         new_file: &WeakArxmlFile,
+        pinned: &mut Vec<Element>,
     ) -> Result<(), AutosarDataError> {
         let mut iter_a = parent_a.sub_elements().enumerate();
         let mut iter_b = parent_b.sub_elements();
@@ -365,13 +376,15 @@ impl AutosarModel {
             let mut elem_locked = element.0.write();
             if elem_locked.file_membership.is_empty() {
                 files.clone_into(&mut elem_locked.file_membership);
+                // remember the element, so that this can be undone if the merge fails further down
+                pinned.push(element.clone());
             }
         }
         // elements in elements_b_only are not present in the model yet, so they need to be added
         Self::import_new_items(parent_a, elements_b_only, new_file, min_ver_b)?;
 
         // recurse for sub elements that are present on both sides: these need to be checked and merged
-        Self::merge_sub_elements(elements_merge, files, new_file)?;
+        Self::merge_sub_elements(elements_merge, files, new_file, pinned)?;
 
         Ok(())
     }
@@ -517,6 +530,7 @@ impl AutosarModel {
         elements_merge: Vec<(Element, Element)>,
         files: &HashSet<WeakArxmlFile>,
         new_file: &WeakArxmlFile,
+        pinned: &mut Vec<Element>,
     ) -> Result<(), AutosarDataError> {
         for (elem_a, elem_b) in elements_merge {
             // get the list of files that the element from a is present in
@@ -527,7 +541,7 @@ impl AutosarModel {
             };
 
             // merge the two elements
-            AutosarModel::merge_element(&elem_a, &files, &elem_b, new_file)?;
+            AutosarModel::merge_element(&elem_a, &files, &elem_b, new_file, pinned)?;
 
             // update the file membership of the merged element, if there was any
             let mut elem_a_locked = elem_a.0.write();
